@@ -146,7 +146,8 @@ func main() {
 	positives := 0
 	// ---- positive controls (every shard runs all: they gate the negatives)
 	akiForms := []string{"absent", "keyId", "issuer+serial", "both"}
-	for _, ca := range []*pki.CA{ecInt, ec384Int, rsaInt} {
+	ec521Int := root.Issue(pki.CertOpts{CN: "C04 EC521 issuing", IsCA: true, Key: pki.ECKey("P521")})
+	for _, ca := range []*pki.CA{ecInt, ec384Int, ec521Int, rsaInt} {
 		for _, alg := range gen.AlgsForKey(ca.Key) {
 			for _, aki := range akiForms {
 				s := mkSpec(ca, alg, aki, 3)
